@@ -865,9 +865,23 @@ def w_adj(S, item):
     if len(recs) != 1:
         raise AnalysisError('anchor-missing', 'expected exactly one %s.apply on the module path, saw %d' % (fn, len(recs)))
     rec = recs[0]
-    for i in slots:
-        if not isinstance(rec.args[i], DataT) or rec.args[i].base_of is None:
-            raise AnalysisError('adjoint', '%s input %d is not passed through unchanged by the module' % (fn, i))
+    if any(not isinstance(rec.args[i], DataT) for i in slots):
+        raise AnalysisError('adjoint', '%s: a differentiable input is not a tensor at the module call site' % fn)
+    if any(rec.args[i].base_of is None for i in slots):
+        # the module hands the Function a view / crop of its input: re-run the Function on fresh symbolic inputs
+        # with the argument binding of the module's call site
+        args2 = list(rec.args)
+        for i in slots:
+            a = rec.args[i]
+            nb_, t_ = base_tensor_dims('in%d' % i, a.dims, requires_grad=a.requires_grad)
+            args2[i] = t_
+        S.libs.apply_log = []
+        o = S.run(S.interp.getattr(rec.cls, 'apply'), *args2)
+        if o.kind != 'ok':
+            res['diff'] = 1
+            res['findings'].append(exc_finding(S, o, construct, '%s:%s:forward' % (mode, cond)))
+            return res
+        rec = S.libs.apply_log[-1]
     needs = rec.ctx.needs_input_grad
     problems = check_backward(S, rec, slots, needs, L, construct)
     for slot, what, msg, loc in problems:
